@@ -69,7 +69,31 @@ func recoverFrameOK(fn *ssa.Function) (bool, string) {
 	return false, "no deferred recover closure is registered in the entry block"
 }
 
-func (L *Loader) goSweep(c *GoSweepConfig, verified map[string]bool) (obls []*Obligation, notes []string) {
+// loopBlocks: the blocks of fn that lie on a cycle of its control-flow graph.
+func loopBlocks(fn *ssa.Function) map[*ssa.BasicBlock]bool {
+	in := map[*ssa.BasicBlock]bool{}
+	for _, b := range fn.Blocks {
+		seen := map[*ssa.BasicBlock]bool{}
+		stack := append([]*ssa.BasicBlock{}, b.Succs...)
+		for len(stack) > 0 {
+			x := stack[len(stack)-1]
+			stack = stack[:len(stack)-1]
+			if seen[x] {
+				continue
+			}
+			seen[x] = true
+			if x == b {
+				in[b] = true
+				break
+			}
+			stack = append(stack, x.Succs...)
+		}
+	}
+	return in
+}
+
+func (L *Loader) goSweep(c0 *GoSweepConfig, verified map[string]bool) (obls []*Obligation, notes []string) {
+	c := c0
 	inPkg := func(p *ssa.Package) bool {
 		if p == nil {
 			return false
@@ -129,18 +153,32 @@ func (L *Loader) goSweep(c *GoSweepConfig, verified map[string]bool) (obls []*Ob
 						}
 					}
 				}
-				g, ok := in.(*ssa.Go)
-				if !ok {
+				var gcall *ssa.CallCommon
+				var target *ssa.Function
+				if g, ok := in.(*ssa.Go); ok {
+					gcall = &g.Call
+					if mc, isClo := g.Call.Value.(*ssa.MakeClosure); isClo {
+						target = mc.Fn.(*ssa.Function)
+					} else {
+						target = g.Call.StaticCallee()
+					}
+				} else if c, ok := in.(*ssa.Call); ok {
+					// time.AfterFunc(d, f) runs f in a goroutine of its own, like a go statement
+					if callee := c.Call.StaticCallee(); callee != nil && callee.Pkg != nil && callee.Pkg.Pkg.Path() == "time" && callee.Name() == "AfterFunc" && len(c.Call.Args) == 2 {
+						gcall = &c.Call
+						switch f := c.Call.Args[1].(type) {
+						case *ssa.MakeClosure:
+							target = f.Fn.(*ssa.Function)
+						case *ssa.Function:
+							target = f
+						}
+					}
+				}
+				if gcall == nil {
 					continue
 				}
-				pos := L.fset.Position(g.Pos())
+				pos := L.fset.Position(in.Pos())
 				pstr := fmt.Sprintf("%s:%d", strings.TrimPrefix(pos.Filename, L.repoDir+"/"), pos.Line)
-				var target *ssa.Function
-				if mc, isClo := g.Call.Value.(*ssa.MakeClosure); isClo {
-					target = mc.Fn.(*ssa.Function)
-				} else {
-					target = g.Call.StaticCallee()
-				}
 				nGo[short]++
 				s := site{pos: pstr, fn: short}
 				switch {
@@ -214,6 +252,65 @@ func (L *Loader) goSweep(c *GoSweepConfig, verified map[string]bool) (obls []*Ob
 					notes = append(notes, s.id+" at "+pstr+" (reviewed: "+why+")")
 				} else {
 					s.desc = "a map shared by the goroutines serving the connections is written without a lock held: the runtime ends the process on concurrent map access"
+				}
+				sites = append(sites, s)
+			}
+		}
+		// read-error rule: inside a loop, a read from a connection or reader whose error result is thrown away
+		// lets the loop go round for ever once the peer is gone (each read then returns at once)
+		inLoop := loopBlocks(fn)
+		nIgn := 0
+		for _, b := range fn.Blocks {
+			if !inLoop[b] {
+				continue
+			}
+			for _, in := range b.Instrs {
+				c, ok := in.(*ssa.Call)
+				if !ok {
+					continue
+				}
+				name := ""
+				if c.Call.IsInvoke() {
+					name = c.Call.Method.Name()
+				} else if callee := c.Call.StaticCallee(); callee != nil {
+					name = callee.Name()
+				}
+				switch name {
+				case "Read", "ReadByte", "ReadBytes", "ReadString", "ReadLine", "ReadRune", "ReadFull", "ReadAtLeast", "ReadFrom":
+				default:
+					continue
+				}
+				res := c.Call.Signature().Results()
+				if res.Len() == 0 || res.At(res.Len()-1).Type().String() != "error" {
+					continue
+				}
+				used := false
+				if refs := c.Referrers(); refs != nil {
+					for _, r := range *refs {
+						if ex, ok := r.(*ssa.Extract); ok && ex.Index == res.Len()-1 {
+							if er := ex.Referrers(); er != nil && len(*er) > 0 {
+								used = true
+							}
+						}
+						if res.Len() == 1 {
+							if _, isDbg := r.(*ssa.DebugRef); !isDbg {
+								used = true
+							}
+						}
+					}
+				}
+				if used {
+					continue
+				}
+				nIgn++
+				pos := L.fset.Position(in.Pos())
+				pstr := fmt.Sprintf("%s:%d", strings.TrimPrefix(pos.Filename, L.repoDir+"/"), pos.Line)
+				s := site{id: fmt.Sprintf("%s/read-error-ignored/%s#%d", short, name, nIgn), pos: pstr, fn: short}
+				if why, rev := func() (string, bool) { w, ok := c0.Reviewed[s.id]; return w, ok }(); rev {
+					s.ok, s.desc = true, "reviewed: "+why
+					notes = append(notes, s.id+" at "+pstr+" (reviewed: "+why+")")
+				} else {
+					s.desc = "the error of " + name + " is ignored inside a loop: once the peer is gone every read returns at once and the loop spins"
 				}
 				sites = append(sites, s)
 			}
@@ -687,6 +784,48 @@ func (L *Loader) eventAddrRule(fn *ssa.Function) (obls []*Obligation) {
 	for i, b := range bad {
 		obls = append(obls, &Obligation{ID: fmt.Sprintf("%s/event-address/other-source#%d", short, i+1), Kind: "confine", Func: short, Pos: strings.SplitN(b, " ", 2)[0],
 			Desc: "the address of an event is not taken from the handler's own connection (" + b + ")", Prefix: 1, Goal: "false", Script: []string{"(set-logic ALL)"}})
+	}
+	return
+}
+
+// unbufferedChans: every channel made by the function (and its closures) is unbuffered, so that a send
+// completes only when the receiving pump has taken the item (an item cannot be left queued when the pump is
+// told to stop).
+func (L *Loader) unbufferedChans(fn *ssa.Function) (obls []*Obligation) {
+	short := L.funcKeyShort(fn)
+	n, bad := 0, 0
+	var visit func(f *ssa.Function)
+	seen := map[*ssa.Function]bool{}
+	visit = func(f *ssa.Function) {
+		if seen[f] {
+			return
+		}
+		seen[f] = true
+		for _, b := range f.Blocks {
+			for _, in := range b.Instrs {
+				switch x := in.(type) {
+				case *ssa.MakeClosure:
+					if cl, ok := x.Fn.(*ssa.Function); ok {
+						visit(cl)
+					}
+				case *ssa.MakeChan:
+					n++
+					if c, ok := x.Size.(*ssa.Const); ok && c.Value != nil && c.Int64() == 0 {
+						continue
+					}
+					bad++
+					pos := L.fset.Position(x.Pos())
+					obls = append(obls, &Obligation{ID: fmt.Sprintf("%s/unbuffered-channel/make#%d", short, bad), Kind: "confine", Func: short,
+						Pos:  fmt.Sprintf("%s:%d", strings.TrimPrefix(pos.Filename, L.repoDir+"/"), pos.Line),
+						Desc: "a buffered channel is made here: items still queued when the pump is stopped are lost", Prefix: 1, Goal: "false", Script: []string{"(set-logic ALL)"}})
+				}
+			}
+		}
+	}
+	visit(fn)
+	if bad == 0 {
+		obls = append(obls, &Obligation{ID: short + "/unbuffered-channel/all#1", Kind: "confine", Func: short, Pos: L.posOfFn(fn),
+			Desc: fmt.Sprintf("all %d channels made here are unbuffered", n), Prefix: 1, Goal: "true", Script: []string{"(set-logic ALL)"}})
 	}
 	return
 }
